@@ -103,6 +103,16 @@ SUMMARY = {
  "C15-k": "extension status lines deferred only after doInitExtensions succeeded: an init that fails during extension launch / registration emits none",
  "C16-k": "acceptInitRequestForInitCaching reuses acceptInitRequest, which stores the long-term credentials: customer variables with the credential names are overwritten in snapshot mode",
  "C20-k": "identity string passed through strings.ToValidUTF8 after the budget was computed: isolated non-UTF-8 bytes triple",
+ "C01-l": "the read error of the runtime's response upload is discarded: a body cut short in the middle is treated as the complete answer",
+ "C02-l": "Reserve takes the caller-supplied Invoke.ID: request ids are no longer unique, a late submission of an earlier invocation with the same id is accepted",
+ "C03-l": "extension init/error for a registered extension also counts as its arrival at the agents-ready barrier",
+ "C04-l": "invoke barriers armed and subscribers computed before the suppressed init: the first invocation after a reset reaches no extension",
+ "C08-l": "reinitialize only after a successful reset: after a reset that had to kill a SHUTDOWN subscriber the state of the old generation survives",
+ "C10-l": "body of a response without declared length (chunked) is still read under the server mutex: a caller arriving during such an upload is refused late",
+ "C12-l": "next handler caches the runtime object of the first generation: after a reset next drives the dead runtime's automaton",
+ "C17-l": "buffered direct-invoke response of exactly the limit is labelled Oversized (>= instead of == limit + 1)",
+ "C18-l": "restore hook deadline only set for a positive timeout: with 0 ms a silent runtime makes the restore wait for ever",
+ "C19-l": "exit statuses 129..159 reported as death by signal N-128",
  "C04-e": "AwaitRuntimeReady of the invoke flow waits on the response gate: the invocation completes before the runtime asked for next",
  "C11-e": "a cancelled gate whose count is met returns success from AwaitGateCondition",
  "C13-e": "event validation of register only looks at the last element: an illegal event before a legal one registers a ghost / wrong error type",
